@@ -1112,9 +1112,15 @@ fn emit_spend(
         for k in keys.iter() {
             for s in sigs.iter() {
                 let pair = if schnorr {
-                    match (XOnlyPublicKey::from_slice(k), bitcoin::taproot::Signature::from_slice(s)) {
-                        (Ok(xk), Ok(sg)) => Some(KeySigPair::Schnorr(xk, sg)),
-                        _ => None,
+                    // verify_sersig (since fix b1ce3b38) refuses a 65-byte signature ending in 0x00
+                    // before parsing; the view handed to the model follows the same rule
+                    if s.len() == 65 && s[64] == 0 {
+                        None
+                    } else {
+                        match (XOnlyPublicKey::from_slice(k), bitcoin::taproot::Signature::from_slice(s)) {
+                            (Ok(xk), Ok(sg)) => Some(KeySigPair::Schnorr(xk, sg)),
+                            _ => None,
+                        }
                     }
                 } else {
                     match (bitcoin::PublicKey::from_slice(k), bitcoin::ecdsa::Signature::from_slice(s)) {
